@@ -355,8 +355,10 @@ static void generate(const char *tier)
 	int span = thorough ? 24 : 8;
 	for (int d = -span; d <= span; d++) for (int mix = 0; mix < 3; mix++) for (int k = 0; k <= (thorough ? 20 : 5); k += 5) for (int sec = 0; sec < 3; sec++) {
 		if (!thorough && sec != (mix + k / 5) % 3) continue;
-		add_item(F_SWEEP512, SM_UDP, k, sec, mix, d);
-		if (mix == 0 && sec == 0) add_item(F_SWEEP512, SM_DIRECT, k, sec, mix, d);
+		if (k <= 10) {       /* more leading records would not fit under 512 - span */
+			add_item(F_SWEEP512, SM_UDP, k, sec, mix, d);
+			if (mix == 0 && sec == 0) add_item(F_SWEEP512, SM_DIRECT, k, sec, mix, d);
+		}
 		add_item(F_SWEEPEDNS, SM_UDP, k, sec, mix, d);
 	}
 	for (int d = -(thorough ? 40 : 24); d <= (thorough ? 60 : 30); d++) add_item(F_SWEEP16K, SM_TCP, 0, 0, 0, d);
